@@ -1,8 +1,11 @@
 BASELINE_OFF = "cd /repo && for m in . tests/fieldmask tests/unknown_fields; do (cd $m && GOFLAGS=-mod=mod GOPROXY=off GOSUMDB=off go test -json -vet=off -count=1 -timeout 25m ./...); done"
 HOOK_COMMITS = ["1fe0d6a", "11e80b9", "6a2530e"]
-NOTES = ("Every check rebuilds its Coq cone (make) and its Go harness against /repo's working tree, runs the real code on generated "
-         "inputs, and evaluates model + property oracles inside coqc. Properties not yet claimed are listed under not_applicable with "
-         "reason 'not built yet' only while the framework is growing; see DESIGN.md section 8 (status).")
+NOTES = ("All 20 properties are claimed; not_applicable is empty. Every check rebuilds its Coq cone (make) and its Go harness against /repo's "
+         "working tree (-tags verif), re-runs its translators (tables, grammar, schemas, map-range sites, hook placement regenerated from the "
+         "source), runs the real code on generated inputs, and evaluates model + property oracles inside coqc; theorems are in coq/Props/Cxx.v "
+         "(Print Assumptions: closed under the global context; coqchk in the thorough tier). Known findings: known_findings.json + "
+         "known_findings.d/*.json (status finding | fixed). Build log with every /repo commit, finding and seeded change: notes/BUILDLOG.md; "
+         "design, deviations, false alarms corrected and trusted base: DESIGN.md section 8.")
 
 import json, os, glob
 _here = os.path.dirname(os.path.abspath(__file__))
